@@ -12,17 +12,23 @@ package dhash
 //@ spec func keyOf(pass int) int = sha(bcat(content(deriveKeyPrefix), pass))
 //@ spec func nonceOf(p int, n int, pass int) int = bsub(sha(bcat(bcat(bcat(content(noncePrefix), le64(n)), p), pass)), 0, 12)
 
-// API-boundary assumption on every function: the three package-level prefixes
-// have cap == len (true for []byte("...") of 64 bytes; nothing in the package
-// re-slices them), so append(prefix, x...) never writes into the prefix's
-// backing array. The replay harness checks it at run time.
+// Package invariant: the three package-level prefixes have cap == len, so
+// append(prefix, x...) never writes into a prefix's backing array (which
+// would make later results depend on earlier calls). It is proved on the
+// package initialiser and assumed by every other function; no other function
+// assigns the variables (checked).
+
+// The package initialiser establishes it: each prefix is the result of a
+// []byte("...") conversion (cap == len in the model; 64-byte literals at run time).
+//@ ginv [secondHashPrefix deriveKeyPrefix noncePrefix]: cap(secondHashPrefix) == len(secondHashPrefix) && cap(deriveKeyPrefix) == len(deriveKeyPrefix) && cap(noncePrefix) == len(noncePrefix)
+//@ func init
+//@   property C12
 
 // The loop over hash.Hash is not proved: the functional postcondition of
 // sha256Multiple is ASSUMED (listed in evidence); length, safety and
 // determinism are proved.
 //@ func sha256Multiple
 //@   property C12
-//@   assumes cap(secondHashPrefix) == len(secondHashPrefix) && cap(deriveKeyPrefix) == len(deriveKeyPrefix) && cap(noncePrefix) == len(noncePrefix)
 //@   pure
 //@   ensures-assumed content(result) == bcat(content(dest), sha(catAll(payloads)))
 //@   ensures-assumed len(result) == len(dest) + 32
@@ -30,7 +36,6 @@ package dhash
 
 //@ func SHA256
 //@   property C12
-//@   assumes cap(secondHashPrefix) == len(secondHashPrefix) && cap(deriveKeyPrefix) == len(deriveKeyPrefix) && cap(noncePrefix) == len(noncePrefix)
 //@   pure
 //@   ensures len(result) == len(dest) + 32
 //@   ensures content(result) == bcat(content(dest), sha(content(payload)))
@@ -38,12 +43,10 @@ package dhash
 
 //@ func SecondMultihash
 //@   property C12
-//@   assumes cap(secondHashPrefix) == len(secondHashPrefix) && cap(deriveKeyPrefix) == len(deriveKeyPrefix) && cap(noncePrefix) == len(noncePrefix)
 //@   pure
 
 //@ func deriveKey
 //@   property C12
-//@   assumes cap(secondHashPrefix) == len(secondHashPrefix) && cap(deriveKeyPrefix) == len(deriveKeyPrefix) && cap(noncePrefix) == len(noncePrefix)
 //@   pure
 //@   ensures len(result) == 32
 //@   ensures isfresh(result)
@@ -53,7 +56,6 @@ package dhash
 // (cipher.AEAD.Open panics on it, see /verif/extern/crypto.spec).
 //@ func DecryptAES
 //@   property C12
-//@   assumes cap(secondHashPrefix) == len(secondHashPrefix) && cap(deriveKeyPrefix) == len(deriveKeyPrefix) && cap(noncePrefix) == len(noncePrefix)
 //@   pure
 //@   ensures len(nonce) != 12 ==> result1 != nil
 //@   ensures result1 == nil <==> (len(nonce) == 12 && aeadOpenOK(keyOf(content(passphrase)), content(nonce), content(payload)))
@@ -62,7 +64,6 @@ package dhash
 
 //@ func EncryptAES
 //@   property C12
-//@   assumes cap(secondHashPrefix) == len(secondHashPrefix) && cap(deriveKeyPrefix) == len(deriveKeyPrefix) && cap(noncePrefix) == len(noncePrefix)
 //@   pure
 //@   ensures result2 == nil
 //@   ensures len(result0) == 12
@@ -72,7 +73,6 @@ package dhash
 
 //@ func DecryptValueKey
 //@   property C12
-//@   assumes cap(secondHashPrefix) == len(secondHashPrefix) && cap(deriveKeyPrefix) == len(deriveKeyPrefix) && cap(noncePrefix) == len(noncePrefix)
 //@   pure
 //@   ensures len(valKey) < 12 ==> result1 != nil
 //@   ensures result1 != nil ==> result0 == nil
@@ -81,14 +81,12 @@ package dhash
 
 //@ func EncryptValueKey
 //@   property C12
-//@   assumes cap(secondHashPrefix) == len(secondHashPrefix) && cap(deriveKeyPrefix) == len(deriveKeyPrefix) && cap(noncePrefix) == len(noncePrefix)
 //@   pure
 //@   ensures result1 == nil
 //@   ensures content(result0) == bcat(nonceOf(content(valKey), len(valKey), content(mh)), aeadSeal(keyOf(content(mh)), nonceOf(content(valKey), len(valKey), content(mh)), content(valKey)))
 
 //@ func DecryptMetadata
 //@   property C12
-//@   assumes cap(secondHashPrefix) == len(secondHashPrefix) && cap(deriveKeyPrefix) == len(deriveKeyPrefix) && cap(noncePrefix) == len(noncePrefix)
 //@   pure
 //@   ensures len(encMetadata) <= 12 ==> result1 != nil
 //@   ensures result1 != nil ==> result0 == nil
@@ -97,16 +95,13 @@ package dhash
 
 //@ func EncryptMetadata
 //@   property C12
-//@   assumes cap(secondHashPrefix) == len(secondHashPrefix) && cap(deriveKeyPrefix) == len(deriveKeyPrefix) && cap(noncePrefix) == len(noncePrefix)
 //@   pure
 //@   ensures result1 == nil
 //@   ensures content(result0) == bcat(nonceOf(content(metadata), len(metadata), content(valueKey)), aeadSeal(keyOf(content(valueKey)), nonceOf(content(metadata), len(metadata), content(valueKey)), content(metadata)))
 
 //@ func CreateValueKey
 //@   property C12
-//@   assumes cap(secondHashPrefix) == len(secondHashPrefix) && cap(deriveKeyPrefix) == len(deriveKeyPrefix) && cap(noncePrefix) == len(noncePrefix)
 
 //@ func SplitValueKey
 //@   property C12
-//@   assumes cap(secondHashPrefix) == len(secondHashPrefix) && cap(deriveKeyPrefix) == len(deriveKeyPrefix) && cap(noncePrefix) == len(noncePrefix)
 //@   ensures result2 == nil ==> len(result1) <= len(valKey)
